@@ -358,7 +358,7 @@ def whole_input(ctx, run, rule, fn, err_variant):
             continue
         n += 1
         def of_rest(t):
-            return any(s[0] == 'downcast' and s[2] == 'Ok' for s in subterms(t))
+            return any(s[0] == 'downcast' and s[2] in ('Ok', 'Continue') for s in subterms(t))
         ok = any(is_call(c[0], 'slice::is_empty') and c[2] is True and of_rest(c[0]) for c in p.conds)
         # the same test written on the length: rest.len() == 0, a slice pattern `[]`, rest.len() < 1 ...
         if not ok:
